@@ -126,6 +126,12 @@ func gather(E *Engine, patterns []string, prop, only string) ([]*FuncResult, err
 			}
 			out = append(out, E.VerifyFunc(p, pc, c))
 		}
+		// helpers queued by the modular no-panic rule (may queue further helpers)
+		for len(E.implicit) > 0 {
+			job := E.implicit[0]
+			E.implicit = E.implicit[1:]
+			out = append(out, E.VerifyFunc(job.p, job.pc, job.c))
+		}
 		if only == "" || only == "lemmas" {
 			lr := E.VerifyLemmas(p, pc, prop)
 			if len(lr.Obls) > 0 {
